@@ -45,7 +45,7 @@ def run(tier, seed):
         tbin, err = vlib.build_harness("h_tree")
         if tbin:
             cases = []
-            for tc in T.gen_random(rng, 150 if quick else 5000, 300 if quick else 3000):
+            for tc in T.gen_random(rng, 150 if quick else 2000, 300 if quick else 1200):
                 treecheck.add_lookup_queries(tc, rng)
                 tc.queries += ["data", "zero", "cv", "setrhs", "export"] + treecheck.moves(tc, rng) + ["rebuild", "export", "data"]
                 cases.append(tc.text())
@@ -69,7 +69,7 @@ def run(tier, seed):
         ebin, err = vlib.build_harness("h_algo_exec", sources=["h_algo.cpp"], defines=["FAMILY_EXEC"])
         if ebin:
             cases = []
-            for tc in T.gen_random(rng, 120 if quick else 5000, 200 if quick else 2000, Hmax={1: 8, 2: 6, 3: 5, 4: 4}):
+            for tc in T.gen_random(rng, 120 if quick else 2000, 200 if quick else 800, Hmax={1: 8, 2: 6, 3: 5, 4: 4}):
                 cases.append(A.ExecCase(tc.d, tc.per, tc.H, tc.B, tc.mode, tc.nums, rng.choice([2, 0, 1, 3, tc.H, -1]), rng.choice([[63], [6, 9, 48], [1], [8, 2, 4]]), rb=rng.below(4) == 0).text())
             vlib.differential(rep, ebin, cases, sdir, "exec", canon=lambda c, l: l.split(" || ")[0], clause=lambda c: "exec"); families += 1
         # 3. target/source, 4. periodic top tree, 5. OpenMP under deferred schedules (lifetimes!)
@@ -84,7 +84,7 @@ def run(tier, seed):
         obin, err = vlib.build_harness("h_sched", extra_flags=c03.OMPFLAGS)
         if obin:
             cases = []
-            for tc in T.gen_random(rng, 25 if quick else 400, 100, dims=(1, 2, 3), Hmax={1: 7, 2: 5, 3: 5}):
+            for tc in T.gen_random(rng, 25 if quick else 250, 100, dims=(1, 2, 3), Hmax={1: 7, 2: 5, 3: 5}):
                 tc.per = 0
                 for pol in (1, 2, 3, 4):
                     cases.append(c03.case_text(tc, rng.choice([2, 0, 1]), [63], pol, rng.choice([1, 2, 3, 8, 16]), rng.below(1 << 30)))
